@@ -6,7 +6,7 @@ use std::path::Path;
 mod dtype;
 use dtype::{Element, ElementKind};
 
-use crate::value::{DataType, Value, View, dispatch_data_type, match_view};
+use crate::value::{DataType, Value, View, checked_element_count, dispatch_data_type, match_view};
 
 /// Magic bytes at the start of every `.npy` file.
 const MAGIC: &[u8; 6] = b"\x93NUMPY";
@@ -17,6 +17,20 @@ const HEADER_ALIGN: usize = 64;
 
 fn invalid_data(msg: impl Into<String>) -> io::Error {
     io::Error::new(io::ErrorKind::InvalidData, msg.into())
+}
+
+/// Maximum buffer capacity reserved on the strength of a length field alone.
+///
+/// Lengths in the file are untrusted, so larger buffers grow as data actually
+/// arrives instead of being allocated up front.
+const MAX_PREALLOC: usize = 1 << 20;
+
+/// Read exactly `len` bytes from `reader`, or return `None` if the stream ends
+/// first.
+fn read_bytes(reader: impl io::Read, len: usize) -> io::Result<Option<Vec<u8>>> {
+    let mut buf = Vec::with_capacity(len.min(MAX_PREALLOC));
+    reader.take(len as u64).read_to_end(&mut buf)?;
+    Ok((buf.len() == len).then_some(buf))
 }
 
 /// Serialize a tensor to a writer.
@@ -63,11 +77,8 @@ pub fn read(mut reader: impl io::Read) -> io::Result<Value> {
 }
 
 fn read_typed<T: Element>(header: &Header, mut reader: impl io::Read) -> io::Result<Tensor<T>> {
-    let n_elements = header
-        .shape
-        .iter()
-        .try_fold(1usize, |acc, &dim| acc.checked_mul(dim))
-        .ok_or_else(|| invalid_data("array element count overflows"))?;
+    let n_elements = checked_element_count(&header.shape)
+        .ok_or_else(|| invalid_data("array shape is too large"))?;
     let n_bytes = n_elements
         .checked_mul(T::ITEM_SIZE)
         .ok_or_else(|| invalid_data("array size in bytes overflows"))?;
@@ -77,14 +88,8 @@ fn read_typed<T: Element>(header: &Header, mut reader: impl io::Read) -> io::Res
     if n_bytes > u32::MAX as usize {
         return Err(invalid_data("array is too large"));
     }
-    let mut data = Vec::with_capacity(n_bytes);
-    reader
-        .by_ref()
-        .take(n_bytes as u64)
-        .read_to_end(&mut data)?;
-    if data.len() != n_bytes {
-        return Err(invalid_data("array data is truncated"));
-    }
+    let data = read_bytes(reader.by_ref(), n_bytes)?
+        .ok_or_else(|| invalid_data("array data is truncated"))?;
 
     // FIXME: This copies every element even when the data is already in the
     // requested little-endian, C-contiguous layout and could be used directly.
@@ -196,8 +201,8 @@ fn read_header(mut reader: impl io::Read) -> io::Result<Header> {
         }
     };
 
-    let mut header = vec![0u8; header_len];
-    reader.read_exact(&mut header)?;
+    let header = read_bytes(reader.by_ref(), header_len)?
+        .ok_or_else(|| io::Error::new(io::ErrorKind::UnexpectedEof, "npy header is truncated"))?;
     let header =
         std::str::from_utf8(&header).map_err(|_| invalid_data("npy header is not valid UTF-8"))?;
 
@@ -561,6 +566,41 @@ mod tests {
             let bytes = npy_with_header(case, &[0, 0, 0, 0]);
             let err = read(&bytes[..]).unwrap_err();
             assert_eq!(err.kind(), io::ErrorKind::InvalidData, "case: {case}");
+        }
+    }
+
+    /// A header length or shape that promises more data than the stream holds
+    /// is reported as an error (and must not be trusted for allocation).
+    #[test]
+    fn test_read_npy_rejects_truncated_header_and_data() {
+        let mut bytes = Vec::new();
+        bytes.extend_from_slice(MAGIC);
+        bytes.extend_from_slice(&[2, 0]);
+        bytes.extend_from_slice(&u32::MAX.to_le_bytes());
+        let err = read(&bytes[..]).unwrap_err();
+        assert_eq!(err.kind(), io::ErrorKind::UnexpectedEof);
+
+        let bytes = npy_with_header(
+            "{'descr': '|u1', 'fortran_order': False, 'shape': (4294967295,)}",
+            &[1, 2, 3],
+        );
+        let err = read(&bytes[..]).unwrap_err();
+        assert_eq!(err.kind(), io::ErrorKind::InvalidData);
+    }
+
+    /// Shapes whose dimensions overflow when multiplied are rejected even if
+    /// a zero-sized dimension makes the element count zero.
+    #[test]
+    fn test_read_npy_rejects_overflowing_shape_with_zero_dim() {
+        for order in ["False", "True"] {
+            let bytes = npy_with_header(
+                &format!(
+                    "{{'descr': '|u1', 'fortran_order': {order}, 'shape': (0, 9223372036854775807, 3)}}"
+                ),
+                &[],
+            );
+            let err = read(&bytes[..]).unwrap_err();
+            assert_eq!(err.kind(), io::ErrorKind::InvalidData);
         }
     }
 
